@@ -108,6 +108,8 @@ class PoolWorld:
         self.closed_pools = set()
         self.closing = set()  # pools on which gather_and_close() has been called
         self.flushes_begun = collections.Counter()
+        self.locked_pools = set()  # harness knowledge: pools on which lock()/gather_and_close() was called last
+        self.flush_covered = set()  # keys whose worker had exited when some flush() of their pool was called
         self.resized = set()  # pools whose size was re-assigned during the scenario
         self.cancelled_ops = set()  # (actor, pc) of coroutine ops whose caller was cancelled by the harness
         self.slow_ids = scen.get("slow_ids")
@@ -459,7 +461,7 @@ class PoolWorld:
             len(self.viol), len(self.dup_keys), len(self.bad_names),
             sorted(self.start_order.items()),
             sorted(self.cancel_targets),
-            sorted(self.closed_pools), sorted(self.closing), sorted(self.flushes_begun.items()), sorted(self.cancelled_ops), sorted(self.resized),
+            sorted(self.closed_pools), sorted(self.closing), sorted(self.flushes_begun.items()), sorted(self.flush_covered), sorted(self.locked_pools), sorted(self.cancelled_ops), sorted(self.resized),
             [m.__canon__() for m in self.monitors],
         )
 
@@ -727,9 +729,11 @@ class PoolWorld:
                 return ("ok", tuple(ids))
             if name == "lock":
                 pool.lock()
+                self.locked_pools.add(p)
                 return ("ok",)
             if name == "unlock":
                 pool.unlock()
+                self.locked_pools.discard(p)
                 return ("ok",)
             if name == "set_size":
                 v = size_of(pos[0]) if pos[0] != -1 else -1
@@ -766,9 +770,11 @@ class PoolWorld:
                 if name == "flush":
                     coro = pool.flush(*pos)
                     self.flushes_begun[p] += 1
+                    self.flush_covered |= {k for k in self.exited if k[0] == p}
                 elif name == "gac":
                     coro = pool.gather_and_close(*pos)
                     self.closing.add(p)
+                    self.locked_pools.add(p)  # gather_and_close() locks the pool
                 else:
                     coro = pool.until_closed()
                 self.drivers[i] = asyncio.Task(
